@@ -85,6 +85,10 @@ type RPCCase struct {
 	WaitCtx   bool   `json:"wait_ctx,omitempty"`   // the handler, after its receives, waits for ctx.Done() and only then returns its own error / nil
 	CancelMid bool   `json:"cancel_mid,omitempty"` // the client cancels while the handler runs (the handler triggers it, then waits for ctx.Done())
 	PreCancel bool   `json:"pre_cancel,omitempty"` // the request arrives with an already cancelled context
+	// LockStep (real connections, lockstep.go): after sending message k the
+	// handler waits until the client has reported receiving it.
+	LockStep bool   `json:"lock_step,omitempty"`
+	Client   string `json:"client,omitempty"` // lock-step lane: h1-http | h2c-http | grpc | h1-web
 	Opts      Opts   `json:"opts"`
 }
 
@@ -154,6 +158,7 @@ type rscn struct {
 	id     string
 	spec   *RPCCase
 	cancel context.CancelFunc // the client's cancel (CancelMid)
+	acked  int64              // lock-step: messages the client has reported receiving
 	mu     sync.Mutex
 	events []revent
 	traces int
@@ -424,6 +429,13 @@ func (s *rpcSvc) stream(md protoreflect.MethodDescriptor, ss grpc.ServerStream) 
 			return err
 		}
 		sc.add("h", "send-ok", "", nil, n, nil)
+		if c.LockStep {
+			if !sc.waitAck(i+1, lockStepWatchdog) {
+				sc.add("h", "ack-timeout", "", nil, i+1, nil)
+				return status.Error(codes.Aborted, "lock-step stalled")
+			}
+			sc.add("h", "acked", "", nil, i+1, nil)
+		}
 	}
 	if c.Fail {
 		return c.err()
@@ -1543,6 +1555,7 @@ func RunC18(r *mon.Run) {
 		r.Count("stats_events_without_request_metadata", int(n))
 	}
 	runSockets(r, s)
+	runLockStep(r, s)
 	runWS(r)
 }
 
@@ -1576,6 +1589,11 @@ func replayRPC(r *mon.Run, raw json.RawMessage) {
 	}
 	o := c.Opts
 	c.Opts = Opts{}
+	if doc.Lane == "lockstep" {
+		runLockStepCells(r, s, []RPCCase{c}, []Opts{o})
+		r.Distinct("replay-lockstep")
+		return
+	}
 	if doc.Lane == "sockets" {
 		runSocketCases(r, s, []RPCCase{c}, []Opts{{}, o})
 		r.Distinct("replay-sockets")
